@@ -9,8 +9,8 @@ META = dict(
               "round-trip laws (decoded = encoded, trailing bytes preserved, each part delivered exactly once)",
     level_text="Every enumerated (shape, target, segmentation) is executed on the real code and judged by TLC: all "
                "three protocol versions, requests and responses, body kinds none / bytes / readv / stream / "
-               "stream+error / error, 0-3 trailing bytes; ALL compositions of short streams and 0-3 cuts around every "
-               "part boundary (incl. inside 4-byte length prefixes) of longer ones, pushed into the decoders and pulled "
+               "stream+error / error, 0-3 trailing bytes; ALL compositions of short streams, and for longer ones single cuts "
+               "around and pairs of cuts on every part boundary (incl. inside 4-byte length prefixes), byte-by-byte and all-boundaries, pushed into the decoders and pulled "
                "by the real readers through a short-reading pipe. Byte values are harness-chosen hostile payloads.",
     level_note="Value-level fidelity is by execution on chosen payloads (empty strings, 0x00/0x01/newline, done/END/ERR/"
                "chunked look-alikes, hex-digit look-alikes), not by model: the spec reasons about byte counts only. "
